@@ -352,4 +352,161 @@ Section Restore.
       exists new. eexists. split; [exact Hfind|].
       split; [left; reflexivity|]. cbn [su_key su_tuple su_token]. repeat split; reflexivity.
   Qed.
+
+  (* -------------------------------------------------------------- observations survive *)
+  (* what a record asks for *)
+  Definition ps_ktok (r : ps_obs) : option (bytes * bytes * bytes) :=
+    match req (ob_pkt r) with Some (n, t, _) => Some (n, ob_tuple r, t) | None => None end.
+  Definition ps_kck (r : ps_obs) : option (bytes * bytes * bytes) :=
+    match req (ob_pkt r) with Some (n, _, k) => Some (n, ob_tuple r, k) | None => None end.
+
+  Definition ps_acceptable (m : ps_mem) (r : ps_obs) : Prop :=
+    ps_beq (ob_proto r) (cf_proto c) = true /\ ps_beq (ob_listen r) (cf_listen c) = true /\
+    exists name token ck rs, req (ob_pkt r) = Some (name, token, ck) /\
+      ps_find name m = Some rs /\ rs_observable rs = true.
+
+  (* the observation of record r is established in m *)
+  Definition ps_present (m : ps_mem) (r : ps_obs) : Prop :=
+    exists name token ck rs s, req (ob_pkt r) = Some (name, token, ck) /\
+      ps_find name m = Some rs /\ In s (rs_subs rs) /\
+      su_tuple s = ob_tuple r /\ su_token s = token /\ su_ck s = ck /\ su_pkt s = ob_pkt r.
+
+  (* every subscription in m was made for one of the records in [done] *)
+  Definition ps_from (m : ps_mem) (done : list ps_obs) : Prop :=
+    forall n rs s, ps_find n m = Some rs -> In s (rs_subs rs) ->
+      exists r, In r done /\ ps_ktok r = Some (n, su_tuple s, su_token s) /\
+                ps_kck r = Some (n, su_tuple s, su_ck s).
+
+  Lemma ps_find_replace_other : forall new m n,
+    ps_beq n (rs_name new) = false -> ps_find n (ps_replace new m) = ps_find n m.
+  Proof.
+    intros new m n Hn. induction m as [|x m IH]; [reflexivity|]. cbn [ps_replace].
+    destruct (ps_beq (rs_name new) (rs_name x)) eqn:E.
+    - apply ps_beq_eq in E. cbn [ps_find]. rewrite <- E, Hn. reflexivity.
+    - cbn [ps_find]. destruct (ps_beq n (rs_name x)); [reflexivity|exact IH].
+  Qed.
+
+  Lemma ps_find_tok_none : forall tuple token l,
+    (forall s, In s l -> ~ (su_tuple s = tuple /\ su_token s = token)) ->
+    ps_find_tok tuple token l = None.
+  Proof.
+    induction l as [|x l IH]; intro H; [reflexivity|]. cbn [ps_find_tok].
+    destruct (ps_beq tuple (su_tuple x) && ps_beq token (su_token x)) eqn:E.
+    - apply andb_true_iff in E. destruct E as [E1 E2]. apply ps_beq_eq in E1. apply ps_beq_eq in E2.
+      exfalso. apply (H x (or_introl eq_refl)). split; congruence.
+    - apply IH. intros s Hs. apply H. right. exact Hs.
+  Qed.
+
+  Lemma ps_find_ck_none : forall tuple ck l,
+    (forall s, In s l -> ~ (su_tuple s = tuple /\ su_ck s = ck)) ->
+    ps_find_ck tuple ck l = None.
+  Proof.
+    induction l as [|x l IH]; intro H; [reflexivity|]. cbn [ps_find_ck].
+    destruct (ps_beq tuple (su_tuple x) && ps_beq ck (su_ck x)) eqn:E.
+    - apply andb_true_iff in E. destruct E as [E1 E2]. apply ps_beq_eq in E1. apply ps_beq_eq in E2.
+      exfalso. apply (H x (or_introl eq_refl)). split; congruence.
+    - apply IH. intros s Hs. apply H. right. exact Hs.
+  Qed.
+
+  (* one record whose (resource, session, token) and (resource, session, cache key) differ from
+     everything established so far: a new subscription is put in front, nothing is dropped *)
+  Lemma ps_obs_step_spec_new : forall r m C done,
+    ps_acceptable m r -> ps_from m done ->
+    (forall r', In r' done -> ps_ktok r' <> ps_ktok r /\ ps_kck r' <> ps_kck r) ->
+    let m' := fst (fst (ps_obs_step_spec r m C)) in
+    ps_present m' r /\ ps_from m' (r :: done) /\
+    (forall r', ps_present m r' -> ps_present m' r') /\
+    (forall r', ps_acceptable m r' -> ps_acceptable m' r').
+  Proof.
+    intros r m C done (Hp & Hl & name & token & ck & rs & Hreq & Hf & Hobs) Hfrom Hd.
+    assert (Hkt : ps_ktok r = Some (name, ob_tuple r, token)) by (unfold ps_ktok; rewrite Hreq; reflexivity).
+    assert (Hkc : ps_kck r = Some (name, ob_tuple r, ck)) by (unfold ps_kck; rewrite Hreq; reflexivity).
+    assert (Ht : ps_find_tok (ob_tuple r) token (rs_subs rs) = None).
+    { apply ps_find_tok_none. intros s Hs [E1 E2].
+      destruct (Hfrom name rs s Hf Hs) as (r0 & Hin & Hk1 & _).
+      destruct (Hd r0 Hin) as [Hne _]. apply Hne. rewrite Hk1, Hkt, E1, E2. reflexivity. }
+    assert (Hc : ps_find_ck (ob_tuple r) ck (rs_subs rs) = None).
+    { apply ps_find_ck_none. intros s Hs [E1 E2].
+      destruct (Hfrom name rs s Hf Hs) as (r0 & Hin & _ & Hk2).
+      destruct (Hd r0 Hin) as [_ Hne]. apply Hne. rewrite Hk2, Hkc, E1, E2. reflexivity. }
+    unfold ps_obs_step_spec. rewrite Hp, Hl, Hreq, Hf, Hobs, Ht, Hc. cbn [negb fst snd].
+    match goal with |- context [ps_replace ?x m] => set (new := x) end.
+    set (sn := mkSub (alloc (ps_live (ps_replace (mkRsrc name true (rs_observe rs) (rs_subs rs)) m)))
+                     (ob_tuple r) token ck (ob_pkt r)) in *.
+    assert (Hnew : ps_find name (ps_replace new m) = Some new)
+      by (apply (ps_find_replace_same new m name rs); [reflexivity|exact Hf]).
+    assert (Hother : forall n, n <> name -> ps_find n (ps_replace new m) = ps_find n m).
+    { intros n Hn. apply ps_find_replace_other. change (rs_name new) with name.
+      destruct (ps_beq n name) eqn:E; [apply ps_beq_eq in E; contradiction|reflexivity]. }
+    split; [|split; [|split]].
+    - exists name, token, ck, new, sn. split; [exact Hreq|]. split; [exact Hnew|].
+      split; [left; reflexivity|]. repeat split; reflexivity.
+    - intros n rs0 s Hf0 Hs. destruct (list_eq_dec Z.eq_dec n name) as [->|Hn].
+      + rewrite Hnew in Hf0. inversion Hf0; subst rs0. destruct Hs as [<-|Hs].
+        * exists r. split; [left; reflexivity|]. split; [exact Hkt|exact Hkc].
+        * destruct (Hfrom name rs s Hf Hs) as (r0 & Hin & K1 & K2).
+          exists r0. split; [right; exact Hin|]. split; assumption.
+      + rewrite (Hother n Hn) in Hf0. destruct (Hfrom n rs0 s Hf0 Hs) as (r0 & Hin & K1 & K2).
+        exists r0. split; [right; exact Hin|]. split; assumption.
+    - intros r' (n' & t' & k' & rs' & s' & Hr' & Hf' & Hs' & Rest).
+      destruct (list_eq_dec Z.eq_dec n' name) as [->|Hn].
+      + rewrite Hf in Hf'. inversion Hf'; subst rs'.
+        exists name, t', k', new, s'. split; [exact Hr'|]. split; [exact Hnew|].
+        split; [right; exact Hs'|exact Rest].
+      + exists n', t', k', rs', s'. split; [exact Hr'|]. split; [rewrite (Hother n' Hn); exact Hf'|].
+        split; [exact Hs'|exact Rest].
+    - intros r' (Hp' & Hl' & n' & t' & k' & rs' & Hr' & Hf' & Ho').
+      split; [exact Hp'|]. split; [exact Hl'|].
+      destruct (list_eq_dec Z.eq_dec n' name) as [->|Hn].
+      + exists name, t', k', new. split; [exact Hr'|]. split; [exact Hnew|reflexivity].
+      + exists n', t', k', rs'. split; [exact Hr'|]. split; [rewrite (Hother n' Hn); exact Hf'|exact Ho'].
+  Qed.
+
+  Theorem ps_obs_fold_present : forall O m C done,
+    (forall r, In r O -> ps_acceptable m r) -> ps_from m done ->
+    NoDup (map ps_ktok O) -> NoDup (map ps_kck O) ->
+    (forall r r', In r done -> In r' O -> ps_ktok r <> ps_ktok r' /\ ps_kck r <> ps_kck r') ->
+    let mf := fst (fst (ps_obs_fold ps_mem ps_obs_step_spec O m C)) in
+    (forall r, In r O -> ps_present mf r) /\ (forall r, ps_present m r -> ps_present mf r).
+  Proof.
+    induction O as [|x O IH]; intros m C done Hacc Hfrom Hn1 Hn2 Hdone; cbn [ps_obs_fold fst snd].
+    - split; [intros r []|tauto].
+    - inversion Hn1 as [|? ? Hx1 Hn1']; subst. inversion Hn2 as [|? ? Hx2 Hn2']; subst.
+      destruct (ps_obs_step_spec_new x m C done (Hacc x (or_introl eq_refl)) Hfrom)
+        as (Hpx & Hfrom' & Hkeep & Hacc').
+      { intros r' Hr'. apply (Hdone r' x Hr'). left; reflexivity. }
+      destruct (IH (fst (fst (ps_obs_step_spec x m C))) (snd (ps_obs_step_spec x m C)) (x :: done))
+        as [H1 H2].
+      + intros r Hr. apply Hacc'. apply Hacc. right; exact Hr.
+      + exact Hfrom'.
+      + exact Hn1'.
+      + exact Hn2'.
+      + intros r r' [<-|Hr] Hr'.
+        * split; intro E.
+          -- apply Hx1. rewrite E. apply in_map. exact Hr'.
+          -- apply Hx2. rewrite E. apply in_map. exact Hr'.
+        * apply Hdone; [exact Hr|right; exact Hr'].
+      + split.
+        * intros r [<-|Hr]; [apply H2; exact Hpx|apply H1; exact Hr].
+        * intros r Hr. apply H2. apply Hkeep. exact Hr.
+  Qed.
+
+  (* C17_restart_restores, observations: in a fresh process (no subscriptions yet) every stored
+     observation whose resource exists is re-established with its session, token, cache key and
+     request, provided the stored observations are pairwise different in (resource, session,
+     token) and in (resource, session, cache key) - which coap_add_observer guarantees for the
+     subscriptions it keeps *)
+  Theorem ps_restored_observations : forall m0 D O C,
+    let m2 := ps_set_counts (ps_rounded (cf_freq c) C) (ps_dyn_fold (ps_dyn_step app) D m0) in
+    (forall n rs, ps_find n m2 = Some rs -> rs_subs rs = []) ->
+    (forall r, In r O -> ps_acceptable m2 r) ->
+    NoDup (map ps_ktok O) -> NoDup (map ps_kck O) ->
+    forall r, In r O -> ps_present (ps_restored_mem m0 D O C) r.
+  Proof.
+    intros m0 D O C m2 Hempty Hacc Hn1 Hn2 r Hr. unfold ps_restored_mem. fold m2.
+    destruct (ps_obs_fold_present O m2 C [] Hacc) as [H _]; try assumption.
+    - intros n rs s Hf Hs. rewrite (Hempty n rs Hf) in Hs. contradiction.
+    - intros r0 r' [].
+    - apply H. exact Hr.
+  Qed.
 End Restore.
